@@ -152,3 +152,19 @@ package syncx
 //@   ensures calls(fn) <= old(calls(fn)) + 1
 //@   ensures implies(fresh, calls(fn) == old(calls(fn)) + 1 && val == ret(fn, 0) && err == ret(fn, 1))
 //@   ensures implies(!fresh, calls(fn) == old(calls(fn)))
+
+// ResourceManager: the function run under the flight looks the key up first, creates at most once, and publishes a
+// successfully created resource in the map before it returns (so the next flight for the key finds it).
+//@ lockinv (manager *ResourceManager) lock
+//@ guarded_by resources
+//@ func (manager *ResourceManager) GetResource closure 0
+//@   property C07
+//@   flag callbacks_noheap
+//@   results val, err
+//@   ensures calls(create) <= old(calls(create)) + 1
+//@   ensures implies(err == nil, inDom(manager.resources, key) && manager.resources[key] == val)
+//@   ensures implies(err != nil, val == nil && calls(create) == old(calls(create)) + 1 && err == ret(create, 1))
+//@   ensures implies(calls(create) == old(calls(create)) + 1 && err == nil, val == ret(create, 0))
+//@ func (manager *ResourceManager) Inject
+//@   property C07
+//@   ensures inDom(manager.resources, key) && manager.resources[key] == resource
